@@ -50,6 +50,14 @@ CLAIMS = {
          'value stored.',
          'Alignment-fault reporting is proved for PMSA (the VMSA data_abort path is C15 territory); the rotated LDR result of the '
          'legacy mode belongs to the load instructions (C02).'),
+ 'C14': ('translate_address_p proved, for every region configuration (any number of regions, sizes, subregion-disable bits, AP), '
+         'address, privilege and direction, to return the flat address or take exactly the specified Data Abort (permission / '
+         'background / alignment) with DFAR/DFSR (status, WnR) written and nothing else changed; CheckPermission table; MemA under '
+         'the MPU as one function (a denied or misaligned access transfers no data); the deciding region is the highest-numbered '
+         'enabled region that hits (spec-level theorem).',
+         'Partial: "the faulting instruction performs no base-register write-back" and the abort position inside multi-word '
+         'transfers belong to the load/store instruction theorems (C02/C03); LR_abt/SPSR_abt are the C11 entry theorems composed by '
+         'C11_dispatch.'),
  'C16': ('lookup, read, write, error cases, histories (induction over operation lists), shape invariant, byte frame and '
          'store/load proved for every device list, address, size and value.',
          'Device payloads are RAM only; bytearray/struct semantics are the Lib/Machine.v model.'),
